@@ -31,7 +31,8 @@ def x_obligations(tier):
     for (search, pre, idx) in [("h/a/>/*", "h/a/", 2), ("h/s/q1/>/*", "h/s/q1/", 3), ("h/>/x", "h/", 1)]:
         o.append(Obl(f"C09-kernel[{search}]", M, "kernel", env={"VF_SEARCH": search, "VF_PRE": pre, "VF_INDEX": str(idx), "VF_N": "0" if tier == "quick" else "1"}, timeout=T, family="C09-kernel",
                      bound="sorted_search over a stubbed star_search yielding three arbitrary entries with two-segment tails"))
-    for (fixed, key, pre, mid, tail) in [("h/a/x/v1/m", "version", "h/a/x/v", "/", "m"), ("h/a/x", "n", "h/a/", "", ""), ("h/s/q1/v1", "version", "h/s/q1/v", "", "")]:
+    for (fixed, key, pre, mid, tail) in [("h/a/x/v1/m", "version", "h/a/x/v", "/", "m"), ("h/a/x", "n", "h/a/", "", ""), ("h/s/q1/v1", "version", "h/s/q1/v", "", ""),
+                                         ("h/a/x", "version", "h/a/x/v", "", ""), ("h/s/q1", "ext", "h/s/q1/v1/", "", "")]:      # the last two: a key BELOW the Sid's own last field
         o.append(Obl(f"C09-get_last[{fixed},{key}]", M, "get_last", env={"VF_FIXED": fixed, "VF_KEY": key, "VF_PRE": pre, "VF_MID": mid, "VF_TAIL": tail, "VF_N": "1"}, timeout=T, family="C09-get_last",
                      bound=f"Sid({fixed!r}).get_last({key!r}) over two symbolic siblings"))
     for (search, pre, mid, tail, tail2) in [("h/s/q1/>/*", "h/s/q1/v", "/", "m", "c"), ("h/a/x/>/*", "h/a/x/v", "/", "g", "b")]:
